@@ -54,6 +54,17 @@ CLAIMS = {
    technique='Coq proof (residual languages against the RFC 8259 grammar, invariant over all configurations) + model/implementation '
              'correspondence + independent-decoder oracle',
    ref='section 9, C12'),
+ 'C18': dict(
+   category='proof',
+   text='Coq theorems over the model of notations/regex/regex.go: a text is accepted exactly when it is "/" p "/" rest with that '
+        'slash being the first unescaped one (even run of backslashes before it; loop invariant on the escape flag) and p compiles '
+        '(regexp.Compile is a parameter); otherwise a regex code 1500/1501/1502 at an index inside the text (empty text: code 202, no '
+        'position); Len = |p|+2 lies inside the text and the AST value is that prefix; the OpenAPI pattern of the AST value is p. '
+        'Example()/pattern agreement and the referring-schema clause depend on reggen/regexp and are judged by the oracle on every case.',
+   note='Trusted: Coq kernel; model tied by correspondence (pattern, Len, AST value, OpenAPI pattern, error code and index); regexp.Compile '
+        'instantiates the model parameter at run time; reggen, regexp.Match not modelled. Known finding F18d (misplaced anchors). No axioms.',
+   technique='Coq proof (loop invariant, characterisation of acceptance) + model/implementation correspondence + oracle for the library-dependent clauses',
+   ref='section 9, C18'),
 }
 
 def main():
